@@ -668,7 +668,7 @@ def describe(spec):
 
 
 # ------------------------------------------------------------------ points
-def sample_space(rng, space):
+def sample_space(rng, space, vary_types=True):
   vz = M()['vz']
   out = {}
   for pc in space.parameters:
@@ -681,12 +681,12 @@ def sample_space(rng, space):
       out[pc.name] = rng.randint(int(pc.bounds[0]), int(pc.bounds[1]))
     else:
       out[pc.name] = rng.choice(list(pc.feasible_values))
-      if t == vz.ParameterType.DISCRETE and rng.random() < 0.5:
+      if vary_types and t == vz.ParameterType.DISCRETE and rng.random() < 0.5:
         # the same point as designers and converters deliver it: DISCRETE values are floats on the wire (1 -> 1.0)
         out[pc.name] = float(out[pc.name])
     for value, sub in pc.subspaces():
       if float(value) == float(out[pc.name]) if not isinstance(value, str) else value == out[pc.name]:
-        out.update(sample_space(rng, sub))
+        out.update(sample_space(rng, sub, vary_types))
   return out
 
 
@@ -798,7 +798,10 @@ def run_real(c, spec, flags, rng, n_batches, max_batch, points=None):
       pts = points[bi] if bi < len(points) else []
     else:
       size = rng.choice([0, 1, 1, 2, 3, max_batch])
-      pts = [sample_space(rng, top.search_space) for _ in range(size)]
+      # HashingInfeasibleExperimenter hashes json.dumps of the parameter dict: 8 and 8.0 are different keys of its
+      # (trusted, recorded) decision table, which the model matches by VALUE - below such a node one spelling only
+      hashed = any(n.kind == 'hashinf' for n in node.walk())
+      pts = [sample_space(rng, top.search_space, vary_types=not hashed) for _ in range(size)]
     trials = [vz.Trial(parameters=p) for p in pts]
     before = [snapshot_params(t) for t in trials]
     eq_before = [copy.deepcopy(t.parameters) for t in trials]
